@@ -90,7 +90,7 @@ TOOLS = ["mkdir", "cp", "cat", "chmod", "rm", "dirname", "cmake", "make", "pytho
          "tee", "mv", "ls", "touch", "ln", "head", "tail", "sed", "grep", "date", "sleep", "basename", "true", "false", "test", "env", "tr", "cut", "sort", "wc"]
 
 # input "ROOT files" present under /data in every sandbox: name -> number of events
-DATA_FILES = {"f0.root": 3, "f1.root": 12, "one.root": 11, "two.root": 0}
+DATA_FILES = {"f0.root": 3, "f1.root": 12, "one.root": 11, "two.root": 0, "run 2012B/part one.root": 5}
 
 _NS_OK = None
 
@@ -149,6 +149,7 @@ class Sandbox:
                 if (Path(macro_dir) / n).exists():
                     shutil.copy2(Path(macro_dir) / n, r / "jobfw" / n)
         for name, nev in DATA_FILES.items():
+            (r / "data" / name).parent.mkdir(parents=True, exist_ok=True)
             (r / "data" / name).write_text(f"EVENTS {nev}\n")
         (r / "stubbin" / "_stub").write_text(stub)
         (r / "stubbin" / "_stub").chmod(0o755)
